@@ -183,6 +183,11 @@ class ExprMixin:
             if known is not None:
                 return Const(known if op == 'is' else not known)
             return app(op, P(a), P(b))
+        if isinstance(a, Tup) and isinstance(b, Tup) and op in ('eq', 'ne'):
+            if len(a) != len(b):
+                return Const(op == 'ne')
+            if all(isinstance(x, Poly) and x.const_value() is not None for x in a.items + b.items):
+                return Const((a == b) == (op == 'eq'))
         if isinstance(a, Const) and isinstance(b, Const):
             if op == 'eq':
                 return Const(a.value == b.value)
@@ -311,6 +316,9 @@ class ExprMixin:
             if f is not None:
                 return Const(('unbound', f))
             return app('classattr', P(base), Const(name))
+        if isinstance(base, Slice):
+            if name in ('start', 'stop', 'step'):
+                return {'start': base.lo, 'stop': base.hi, 'step': base.step}[name]
         if isinstance(base, Tup):
             if name == 'shape':
                 return Tup([Poly.const(len(base))])
